@@ -44,6 +44,11 @@ func genC14(tier string, seed uint64) *simkit.Plan {
 	rot := r.Range(1, 6)
 	p.SetKnob("rotate", int64(rot))
 	p.SetKnob("preexisting", int64(r.Range(0, rot)))
+	if r.Chance(0.3) {
+		// any set of backup folders: holes in the numbering (a backup restored or
+		// deleted by hand), folders beyond the retention
+		p.SetKnob("premask", int64(1+r.Intn(1<<uint(rot+2)-1)))
+	}
 	p.SetKnob("target_has_state", int64(r.Intn(2)))
 	// the pinset
 	n := r.Range(1, 12)
@@ -141,10 +146,43 @@ func execC14(w *world) {
 	w.rotate = rotate
 	// pre-existing backups (contiguous, fewer than N): they must shift, the oldest go
 	pre := int(plan.Knob("preexisting", 0))
-	for i := 0; i < pre; i++ {
-		d := filepath.Join(dirA, fmt.Sprintf("raft.old.%d", i))
-		os.MkdirAll(d, 0o700)
-		os.WriteFile(filepath.Join(d, "marker"), []byte(fmt.Sprintf("pre%d", i)), 0o644)
+	premask := int(plan.Knob("premask", 0))
+	holes := false
+	if premask > 0 {
+		pre = 0
+		for i := 0; i < rotate+2; i++ {
+			if premask&(1<<uint(i)) != 0 {
+				d := filepath.Join(dirA, fmt.Sprintf("raft.old.%d", i))
+				os.MkdirAll(d, 0o700)
+				os.WriteFile(filepath.Join(d, "marker"), []byte(fmt.Sprintf("pre%d", i)), 0o644)
+			}
+		}
+		// contiguous from 0 and within the retention: the exact model applies
+		for pre < rotate+2 && premask&(1<<uint(pre)) != 0 {
+			pre++
+		}
+		if premask != (1<<uint(pre))-1 || pre > rotate {
+			holes = true
+			run.Probe("backup_sets_with_holes")
+		}
+	} else {
+		for i := 0; i < pre; i++ {
+			d := filepath.Join(dirA, fmt.Sprintf("raft.old.%d", i))
+			os.MkdirAll(d, 0o700)
+			os.WriteFile(filepath.Join(d, "marker"), []byte(fmt.Sprintf("pre%d", i)), 0o644)
+		}
+	}
+	// markers of the backup folders as they are on disk: index -> marker
+	readMarkers := func() map[int]string {
+		out := map[int]string{}
+		for _, name := range listDir(dirA) {
+			var i int
+			if _, err := fmt.Sscanf(name, "raft.old.%d", &i); err == nil {
+				b, _ := os.ReadFile(filepath.Join(dirA, name, "marker"))
+				out[i] = string(b)
+			}
+		}
+		return out
 	}
 
 	nd := w.runSingle(dataA)
@@ -262,12 +300,63 @@ func execC14(w *world) {
 			w.stopSingle()
 			cfgA := mkcfg(dataA)
 			before := listDir(dirA)
+			beforeMarkers := readMarkers()
 			if err := raft.CleanupRaft(cfgA); err != nil {
 				run.Violate("C14/clean_error", "", "CleanupRaft failed: %v", err)
 				return
 			}
 			run.Op()
 			after := listDir(dirA)
+			if holes {
+				// What the statement asks whatever the numbering looked like: the data
+				// folder is gone and recoverable as the newest backup; no older backup
+				// is lost or overwritten except at most one (the oldest of those that
+				// had to make room); every survivor is where it was or one further;
+				// their order of age is kept.
+				if _, err := os.Stat(dataA); err == nil {
+					run.Violate("C14/rotation_wrong", "holes-not-cleaned", "the folder held %v; after cleaning the data folder is still there: %v", before, after)
+				} else if got, err := offlinePins(mkcfg(filepath.Join(dirA, "raft.old.0"))); err != nil || !sameMap(got, expected) {
+					run.Violate("C14/backup_not_recoverable", "holes", "the folder held %v; before cleaning the pinset was %s; raft.old.0 now yields %s (err %v); folders %v", before, fmtState(expected), fmtState(got), err, after)
+				} else {
+					now := readMarkers()
+					where := map[string]int{}
+					for i, m := range now {
+						if m != "" {
+							if _, dup := where[m]; dup {
+								run.Violate("C14/rotation_wrong", "holes-dup", "backup %s exists twice after cleaning: %v", m, after)
+							}
+							where[m] = i
+						}
+					}
+					lost := 0
+					for i, m := range beforeMarkers {
+						j, ok := where[m]
+						if !ok {
+							lost++
+							continue
+						}
+						if j != i && j != i+1 {
+							run.Violate("C14/rotation_wrong", "holes-moved", "backup %s was raft.old.%d and is now raft.old.%d (folders before %v, after %v)", m, i, j, before, after)
+						}
+						for i2, m2 := range beforeMarkers {
+							if j2, ok2 := where[m2]; ok2 && i2 < i && j2 >= j {
+								run.Violate("C14/rotation_wrong", "holes-order", "backups %s and %s changed their order of age (folders before %v, after %v)", m2, m, before, after)
+							}
+						}
+					}
+					if lost > 1 {
+						run.Violate("C14/rotation_wrong", "holes-lost", "%d older backups disappeared in one cleaning (folders before %v, after %v)", lost, before, after)
+					}
+					run.Probe("rotations_checked")
+					run.Probe("rotations_with_holes_checked")
+				}
+				gen++
+				os.WriteFile(filepath.Join(dirA, "raft.old.0", "marker"), []byte(fmt.Sprintf("live%d", gen)), 0o644)
+				copyDir(filepath.Join(dirA, "raft.old.0"), dataA)
+				os.Remove(filepath.Join(dataA, "marker"))
+				w.runSingle(dataA)
+				continue
+			}
 			// the model: previous live folder is .old.0, older ones shifted, at most N kept
 			backupsModel = append([]string{"live"}, backupsModel...)
 			if len(backupsModel) > rotate {
